@@ -30,7 +30,8 @@ use super::{
 pub struct HssPrivateKey<H: HashChain> {
     pub private_key: ArrayVec<[LmsPrivateKey<H>; MAX_ALLOWED_HSS_LEVELS]>,
     pub public_key: ArrayVec<[LmsPublicKey<H>; MAX_ALLOWED_HSS_LEVELS - 1]>,
-    pub signatures: ArrayVec<[LmsSignature<H>; MAX_ALLOWED_HSS_LEVELS - 1]>, // Only L - 1 signatures needed
+    // L - 1 signatures of public keys, plus the message signature appended by HssSignature::sign
+    pub signatures: ArrayVec<[LmsSignature<H>; MAX_ALLOWED_HSS_LEVELS]>,
 }
 
 impl<H: HashChain> HssPrivateKey<H> {
